@@ -138,8 +138,10 @@ class C10(Check):
         return c
 
     def strategy(self, tier, exclude):
-        return st.tuples(gen.query_ir(self.cfg(tier)), st.integers(0, 6), st.booleans()).map(
-            lambda t: dict(q=t[0], k=t[1], unbounded=t[2]))
+        # a third of the queries carry a result count constraint that is always satisfied: it must not cost laziness
+        constraint = st.sampled_from([None, None, ["atleast", 0], ["atmost", 10 ** 6]])
+        return st.tuples(gen.query_ir(self.cfg(tier)), st.integers(0, 6), st.booleans(), constraint).map(
+            lambda t: dict(q=dict(t[0], **({"constraint": t[3]} if t[3] else {})), k=t[1], unbounded=t[2]))
 
     # ------------------------------------------------------------------------------------------
     def _run(self, ir, k, unbounded_var=None, budget=None):
